@@ -33,12 +33,12 @@ func runC03(c *Ctx) {
 			R.Fail("R03.2", e.Name+"#table", e.Fn.Pos(), e.Name, "engine allocates no []*ProbeResponse slot table: anchor lost")
 			continue
 		}
-		// R03.2
-		for _, pa := range firstPath(e.Fn, e.Results.Block()) {
+		// R03.2 (the table may be allocated by a constructor: its length is lifted to the engine's frame through the call sites)
+		for _, pa := range firstPath(e.Results.Parent(), e.Results.Block()) {
 			env := core.NewEnv(c.P, pa)
-			l := env.Term(e.Results.Len)
-			bits, _ := core.IntBits(l.Typ)
-			ok := l.Op == "binop" && l.Name == "+" && l.Args[1].IsConst("1") && l.Args[0].Op == "conv" && strings.HasSuffix(l.Args[0].Args[0].String(), ".MaxTTL") && bits >= 32
+			l := liftToRoot(c.P, e, env.Term(e.Results.Len), e.Results.Parent())
+			bits, _ := core.IntBits(e.Results.Len.Type())
+			ok := l.Op == "binop" && l.Name == "+" && l.Args[1].IsConst("1") && l.Args[0].Op == "conv" && strings.HasSuffix(l.Args[0].Args[0].String(), ".MaxTTL") && bits >= 32 && !l.Args[0].Narrowing()
 			R.Check(ok, "R03.2", e.Name+"#table-len", e.Results.Pos(), e.Name, "table length = "+l.String()+" computed in a "+fmt.Sprint(bits)+"-bit type", "table length is "+l.String()+fmt.Sprintf(" (computed in %d bits): must be int(MaxTTL)+1 with the widening before the addition", bits))
 		}
 		// R03.1
@@ -56,17 +56,10 @@ func runC03(c *Ctx) {
 				okIdx = idx.Op == "field" && idx.Name == "TTL" && idx.Args[0].Key() == val.Key()
 				R.Check(okIdx, "R03.1", key+"/index", st.Pos(), core.FuncName(g), "slot index = stored probe's own TTL", "slot index "+idx.String()+" is not the TTL of the stored value "+val.String())
 			}
-			// the stored value, seen from the receiver loop
-			if g != e.Fn && len(g.Params) == 1 && st.Val == ssa.Value(g.Params[0]) {
-				// closure parameter: check every call site of the closure
-				sites := closureCallSites(c.P, e.Fn, g)
-				R.Floor("R03.1:update-call-sites:"+e.Name, len(sites), 1)
-				for j, cs := range sites {
-					checkValidated(c, e, cs, cs.Common().Args[0], fmt.Sprintf("%s/call[%d]", key, j))
-				}
-			} else {
-				checkValidated(c, e, st, st.Val, key)
-			}
+			// the stored value: validated wherever it comes from (ReceiveProbe in this function, a parameter of the update
+			// closure / method / callback, the result of a helper that waits for a reply)
+			ok, why := validatedAt(c, e, st, st.Val, 0, map[string]bool{})
+			R.Check(ok, "R03.1", key, st.Pos(), core.FuncName(g), "the stored probe passed validateProbe on every way to this store (or travelled the retryable edge, where it is nil)", why)
 		}
 		// R03.3
 		checkEngineReturns(c, e)
@@ -111,33 +104,204 @@ func closureCallSites(p *core.Prog, f, g *ssa.Function) []*ssa.Call {
 	return out
 }
 
-// checkValidated: every CFG path from a ReceiveProbe call to `use` (which consumes
-// value v) crosses the success edge of validateProbe(v') with v' the same
-// ReceiveProbe result, or the CheckProbeRetryable-true edge.
-func checkValidated(c *Ctx, e *Engine, use ssa.Instruction, v ssa.Value, key string) {
-	R := c.R
+// liftToRoot rewrites a term of helper function fn into the vocabulary of the engine's root by substituting parameters with the
+// arguments of fn's (unique) call site, repeatedly.
+func liftToRoot(p *core.Prog, e *Engine, t *core.Term, fn *ssa.Function) *core.Term {
+	cg := p.CallGraph()
+	for depth := 0; depth < 4 && fn != nil && fn != e.Fn && fn.Parent() == nil; depth++ {
+		n := cg.Nodes[fn]
+		if n == nil {
+			break
+		}
+		var site *ssa.Call
+		for _, in := range n.In {
+			if cs, ok := in.Site.(*ssa.Call); ok && e.inScope(in.Caller.Func) && cs.Common().StaticCallee() == fn {
+				site = cs
+			}
+		}
+		if site == nil {
+			break
+		}
+		t = liftThrough(p, t, site)
+		fn = site.Parent()
+		for fn != nil && fn.Parent() != nil {
+			fn = fn.Parent() // a closure of the root shares its frame's captured variables
+		}
+	}
+	return t
+}
+
+// validatedAt decides, for the value v consumed by instruction use, that it is a ReceiveProbe result which validateProbe has
+// accepted (or the nil response of the retryable edge) on every way it can get there:
+//   - v comes from a ReceiveProbe call of the same function: every CFG path from the call to the use crosses validateProbe's
+//     success edge on that very result, or the CheckProbeRetryable-true edge;
+//   - v is a parameter: every call site of the function inside the engine's scope (static, closure, or callback through a function
+//     parameter – taken from the call graph) passes a validated value;
+//   - v is result #0 of a helper of the scope: the use lies behind the helper's err == nil edge and every success return of the
+//     helper returns a validated value (or nil);
+//   - nil constants and phis of the above.
+func validatedAt(c *Ctx, e *Engine, use ssa.Instruction, v ssa.Value, depth int, seen map[string]bool) (bool, string) {
 	g := use.Parent()
 	fn := core.FuncName(g)
-	var recvs []*ssa.Call
-	for _, r := range e.RecvSites {
-		if r.Parent() == g {
-			recvs = append(recvs, r)
+	if depth > 6 {
+		return false, "provenance chain too deep: undecided"
+	}
+	key := fmt.Sprintf("%p|%p", use, v)
+	if seen[key] {
+		return true, ""
+	}
+	seen[key] = true
+	switch x := v.(type) {
+	case *ssa.Const:
+		if x.IsNil() {
+			return true, ""
+		}
+	case *ssa.Phi:
+		for _, ed := range x.Edges {
+			if ok, why := validatedAt(c, e, use, ed, depth+1, seen); !ok {
+				return false, why
+			}
+		}
+		return true, ""
+	case *ssa.UnOp:
+		if a, ok := x.X.(*ssa.Alloc); ok {
+			any := false
+			for _, r := range *a.Referrers() {
+				if st, ok := r.(*ssa.Store); ok && st.Addr == ssa.Value(a) {
+					any = true
+					if ok, why := validatedAt(c, e, use, st.Val, depth+1, seen); !ok {
+						return false, why
+					}
+				}
+			}
+			if any {
+				return true, ""
+			}
+		}
+	case *ssa.Parameter:
+		idx := -1
+		for i, pa := range g.Params {
+			if pa == x {
+				idx = i
+			}
+		}
+		n := c.P.CallGraph().Nodes[g]
+		nsites := 0
+		if n != nil && idx >= 0 {
+			for _, in := range n.In {
+				if !e.inScope(in.Caller.Func) {
+					continue
+				}
+				cc := in.Site.Common()
+				args := cc.Args
+				if cc.IsInvoke() {
+					continue
+				}
+				// calls through a function value / closure pass only the explicit arguments; methods called statically carry the receiver
+				off := len(g.Params) - len(args)
+				if off < 0 || idx-off < 0 || idx-off >= len(args) {
+					continue
+				}
+				nsites++
+				if ok, why := validatedAt(c, e, in.Site, args[idx-off], depth+1, seen); !ok {
+					return false, why
+				}
+			}
+		}
+		if nsites == 0 {
+			return false, "slot is written from parameter " + x.Name() + " of " + fn + ", which has no call site inside the engine: provenance undecided"
+		}
+		return true, ""
+	case *ssa.Extract:
+		call, ok := x.Tuple.(*ssa.Call)
+		if !ok {
+			break
+		}
+		if isDriverInvoke(call.Common(), "ReceiveProbe") && x.Index == 0 {
+			return validatedLocal(c, e, use, call)
+		}
+		// helper of the scope returning (probe, error)
+		h := call.Common().StaticCallee()
+		if h == nil {
+			if mc, ok := c.P.Def(call.Common().Value).(*ssa.MakeClosure); ok {
+				h, _ = mc.Fn.(*ssa.Function)
+			}
+		}
+		if h != nil && e.inScope(h) && x.Index == 0 && h.Signature.Results().Len() == 2 && isErrorType(h.Signature.Results().At(1).Type()) {
+			if !behindNilError(call, use) {
+				return false, "the result of " + core.FuncName(h) + " is stored without its error having been tested"
+			}
+			nret := 0
+			for _, b := range h.Blocks {
+				ret, ok := b.Instrs[len(b.Instrs)-1].(*ssa.Return)
+				if !ok || b.Comment == "recover" {
+					continue
+				}
+				if cst, ok := ret.Results[1].(*ssa.Const); ok && !cst.IsNil() {
+					continue
+				}
+				if _, isConst := ret.Results[1].(*ssa.Const); !isConst {
+					// an error value: the response is nil on these returns in every accepted idiom; decide it
+					if cst0, ok := ret.Results[0].(*ssa.Const); ok && cst0.IsNil() {
+						continue
+					}
+				}
+				nret++
+				if ok, why := validatedAt(c, e, ret, ret.Results[0], depth+1, seen); !ok {
+					return false, why
+				}
+			}
+			if nret == 0 {
+				return false, core.FuncName(h) + " has no success return: undecided"
+			}
+			return true, ""
 		}
 	}
-	if len(recvs) == 0 {
-		R.Fail("R03.1", key, use.Pos(), fn, "slot is written in a function that never calls ReceiveProbe: provenance undecided")
-		return
+	return false, "stored value " + v.Name() + " in " + fn + " does not originate from ReceiveProbe's result through a recognised path"
+}
+
+// behindNilError: every path from the call to the use crosses the "error == nil" edge of a test on the call's second result.
+func behindNilError(call *ssa.Call, use ssa.Instruction) bool {
+	g := call.Parent()
+	cut := map[[2]*ssa.BasicBlock]bool{}
+	n := 0
+	for _, b := range g.Blocks {
+		iff, ok := b.Instrs[len(b.Instrs)-1].(*ssa.If)
+		if !ok {
+			continue
+		}
+		cc, tIdx := condCall(iff)
+		if cc != call {
+			continue
+		}
+		// condCall normalises to "value != nil is true on Succs[tIdx]": the nil edge is the other one
+		cut[[2]*ssa.BasicBlock{b, b.Succs[1-tIdx]}] = true
+		n++
 	}
-	// the used value must be the ReceiveProbe result (directly or through a loop-carried phi of it and nil)
-	srcOK := false
-	for _, r := range recvs {
-		if valueFrom(v, r, 0) {
-			srcOK = true
+	if n == 0 {
+		return false
+	}
+	start := call.Block()
+	if start == use.Block() {
+		return false
+	}
+	for _, s := range start.Succs {
+		if cut[[2]*ssa.BasicBlock{start, s}] {
+			continue
+		}
+		if reachAvoiding(s, use.Block(), map[*ssa.BasicBlock]bool{start: true}, cut) {
+			return false
 		}
 	}
-	if !srcOK {
-		R.Fail("R03.1", key, use.Pos(), fn, "stored value does not originate from ReceiveProbe's result")
-		return
+	return true
+}
+
+// validatedLocal: every CFG path from the ReceiveProbe call r to `use` (same function) crosses the success edge of
+// validateProbe on r's result, or the CheckProbeRetryable-true edge.
+func validatedLocal(c *Ctx, e *Engine, use ssa.Instruction, r *ssa.Call) (bool, string) {
+	g := use.Parent()
+	if r.Parent() != g {
+		return false, "ReceiveProbe is called in another function than the one that uses its result here: undecided"
 	}
 	cutEdges := map[[2]*ssa.BasicBlock]bool{}
 	nval := 0
@@ -154,13 +318,7 @@ func checkValidated(c *Ctx, e *Engine, use ssa.Instruction, v ssa.Value, key str
 		case strings.HasSuffix(shortName(call.Common().StaticCallee()), ".validateProbe"):
 			// success = returned nil = "false" edge of (err != nil)
 			arg := call.Common().Args[len(call.Common().Args)-1]
-			same := false
-			for _, r := range recvs {
-				if valueFrom(arg, r, 0) {
-					same = true
-				}
-			}
-			if same {
+			if valueFrom(arg, r, 0) {
 				cutEdges[[2]*ssa.BasicBlock{b, b.Succs[1-tIdx]}] = true
 				nval++
 			}
@@ -169,35 +327,24 @@ func checkValidated(c *Ctx, e *Engine, use ssa.Instruction, v ssa.Value, key str
 		}
 	}
 	if nval == 0 {
-		R.Fail("R03.1", key, use.Pos(), fn, "no validateProbe call on the ReceiveProbe result guards this slot write")
-		return
+		return false, "no validateProbe call on the ReceiveProbe result guards this use"
 	}
-	bad := false
-	for _, r := range recvs {
-		// start after the call: successors of the call's block (the call block itself is passed)
-		start := r.Block()
-		cutBlocks := map[*ssa.BasicBlock]bool{}
-		if start == use.Block() {
-			// same block: use after the call without any branch in between
-			if core.InstrDominates(r, use) {
-				bad = true
-			}
+	start := r.Block()
+	if start == use.Block() {
+		if core.InstrDominates(r, use) {
+			return false, "the ReceiveProbe result is used in the block of the call, before any validation"
+		}
+		return true, ""
+	}
+	for _, s := range start.Succs {
+		if cutEdges[[2]*ssa.BasicBlock{start, s}] {
 			continue
 		}
-		for _, s := range start.Succs {
-			if cutEdges[[2]*ssa.BasicBlock{start, s}] {
-				continue
-			}
-			cb := map[*ssa.BasicBlock]bool{start: true}
-			for k := range cutBlocks {
-				cb[k] = true
-			}
-			if reachAvoiding(s, use.Block(), cb, cutEdges) {
-				bad = true
-			}
+		if reachAvoiding(s, use.Block(), map[*ssa.BasicBlock]bool{start: true}, cutEdges) {
+			return false, "a path from ReceiveProbe reaches this use without validateProbe having accepted that probe"
 		}
 	}
-	R.Check(!bad, "R03.1", key, use.Pos(), fn, "every path from ReceiveProbe to the slot write crosses validateProbe's success edge (or the retryable edge, where the response is nil)", "a path from ReceiveProbe reaches the slot write without validateProbe having accepted that probe")
+	return true, ""
 }
 
 // valueFrom reports whether v is Extract #idx of call (possibly through phis / captured variables).
@@ -259,7 +406,7 @@ func checkEngineReturns(c *Ctx, e *Engine) {
 				if ok {
 					// second arg is the slot table
 					if v := r0.Args[1].Val; v != nil {
-						ok = c.P.Def(v) == ssa.Value(e.Results)
+						ok = e.isTable(c.P, v)
 					}
 				}
 				R.Check(ok, "R03.3", key, rp.Ret.Pos(), e.Name, "success return = clipResults(MinTTL, table)", "success return is "+r0.String()+", not clipResults(MinTTL, table)")
